@@ -62,6 +62,7 @@ type faultCase struct {
 	rerun   bool   // after the fault: run again in place without cleanup and judge the state after that
 	visible bool   // kill the group the instant the target task's final path becomes visible
 	xdev    bool   // the absolute output area is on another file system
+	execCmd bool   // process A is a Go function that runs the formatted command through the library's ExecCmd helper
 	cmdTail string // appended to the command pattern of process A (a script whose later lines fail after the tool has written everything)
 }
 
@@ -250,6 +251,15 @@ func c01(args []string) {
 			cases = append(cases, &faultCase{tc: topoCase{k, []gen.PathShape{gen.ShapePlain, gen.ShapeNested}[r%2], false, 2}, label: "background-writer", opts: map[string]string{"bgwrite": "1", "pause": "1500", "size": "3000"}, cfg: Cfg{Buf: 128, Procs: 4}})
 		}
 	}
+	// a Go function that runs its tool through the library's ExecCmd helper: the tool fails while / after writing
+	for r, sh := range []gen.PathShape{gen.ShapePlain, gen.ShapeNested} {
+		for k, m := range []string{"exit-mid-write", "exit-after-write", "sigkill-self"} {
+			if !c.Thorough() && (r+k)%2 == 1 {
+				continue
+			}
+			cases = append(cases, &faultCase{tc: topoCase{"twoout", sh, false, 2}, label: "fail=" + m + "(tool run through ExecCmd)", execCmd: true, opts: map[string]string{"fail": m}, cfg: Cfg{Buf: 128, Procs: 2}})
+		}
+	}
 	// the command is a script of several lines: the tool writes its outputs completely and exits 0, a later line fails
 	for _, k := range []string{"single", "twoout", "extra"} {
 		for r, sh := range []gen.PathShape{gen.ShapePlain, gen.ShapeNested, gen.ShapeParent, gen.ShapeAbs} {
@@ -283,6 +293,13 @@ func c01(args []string) {
 		exp := evalRef(s, nil)
 		if fc.cmdTail != "" {
 			s.Proc("A").Cmd += fc.cmdTail // (the reference, taken before, describes the tool's part of the script)
+		}
+		if fc.execCmd {
+			a := s.Proc("A")
+			a.Kind, a.ExecCmd = spec.KGoFunc, true
+			if fc.key == "" {
+				fc.key = exp.ByProc["A"][0].Key
+			}
 		}
 		bh := gen.TopoBehav(fc.tc.kind, exp)
 		probesFor(root, exp, bh)
